@@ -423,6 +423,79 @@ func c10GrpcTable(c *Ctx) {
 	// evaluate every return: facts code == k (case) or all != (default)
 	// evaluate the function for a given code: follow the branches that compare the code with constants (any arrangement
 	// of switch cases, grouped cases, if chains) down to the constant that is returned
+	// a package-level array used as the table: its elements as stored by the package initialiser (and nowhere else)
+	tableOf := func(g *ssa.Global) (map[int64]int64, bool) {
+		tbl := map[int64]int64{}
+		ok := true
+		for _, f := range PkgFuncs(g.Pkg) {
+			EachInstr(f, func(in ssa.Instruction) {
+				st, isSt := in.(*ssa.Store)
+				if !isSt {
+					return
+				}
+				ia, isIA := st.Addr.(*ssa.IndexAddr)
+				if isIA && ia.X == ssa.Value(g) {
+					i, okI := ConstInt(ia.Index)
+					v, okV := ConstInt(st.Val)
+					if !okI || !okV || f.Name() != "init" {
+						ok = false
+						return
+					}
+					tbl[i] = v
+					return
+				}
+				if st.Addr == ssa.Value(g) {
+					ok = false // the table is replaced somewhere
+				}
+			})
+		}
+		return tbl, ok
+	}
+	// the integer value of v when the code is k
+	var intVal func(v ssa.Value, k int64, d int) (int64, bool)
+	intVal = func(v ssa.Value, k int64, d int) (int64, bool) {
+		if d > 6 {
+			return 0, false
+		}
+		if c2, isC := ConstInt(v); isC {
+			return c2, true
+		}
+		if v == ssa.Value(codeCall) {
+			return k, true
+		}
+		switch x := v.(type) {
+		case *ssa.Convert:
+			return intVal(x.X, k, d+1)
+		case *ssa.ChangeType:
+			return intVal(x.X, k, d+1)
+		case *ssa.UnOp:
+			// table[code]
+			if ia, ok := x.X.(*ssa.IndexAddr); ok && x.Op == token.MUL {
+				if g, isG := ia.X.(*ssa.Global); isG {
+					if arr, isArr := g.Type().Underlying().(*types.Pointer).Elem().Underlying().(*types.Array); isArr {
+						idx, okI := intVal(ia.Index, k, d+1)
+						tbl, okT := tableOf(g)
+						if okI && okT && idx >= 0 && idx < arr.Len() {
+							return tbl[idx], true
+						}
+					}
+				}
+			}
+		case *ssa.Index:
+			if u, ok := x.X.(*ssa.UnOp); ok {
+				if g, isG := u.X.(*ssa.Global); isG {
+					if arr, isArr := g.Type().Underlying().(*types.Pointer).Elem().Underlying().(*types.Array); isArr {
+						idx, okI := intVal(x.Index, k, d+1)
+						tbl, okT := tableOf(g)
+						if okI && okT && idx >= 0 && idx < arr.Len() {
+							return tbl[idx], true
+						}
+					}
+				}
+			}
+		}
+		return 0, false
+	}
 	evalFor := func(k int64) (int64, bool) {
 		b := fn.Blocks[0]
 		for steps := 0; steps < 4*len(fn.Blocks)+8; steps++ {
@@ -431,33 +504,37 @@ func c10GrpcTable(c *Ctx) {
 				if len(last.Results) != 1 {
 					return 0, false
 				}
-				v := last.Results[0]
-				if phi, ok := v.(*ssa.Phi); ok {
-					_ = phi
-					return 0, false
-				}
-				return ConstInt(v)
+				return intVal(last.Results[0], k, 0)
 			case *ssa.Jump:
 				b = b.Succs[0]
 			case *ssa.If:
 				subj, pol := BoolSubject(last.Cond)
 				bo, ok := subj.(*ssa.BinOp)
-				if !ok || (bo.Op != token.EQL && bo.Op != token.NEQ) {
+				if !ok {
 					return 0, false
 				}
-				var kv ssa.Value
-				if Strip(bo.X) == ssa.Value(codeCall) {
-					kv = bo.Y
-				} else if Strip(bo.Y) == ssa.Value(codeCall) {
-					kv = bo.X
-				} else {
+				x, okX := intVal(bo.X, k, 0)
+				y, okY := intVal(bo.Y, k, 0)
+				if !okX || !okY {
 					return 0, false
 				}
-				c2, isC := ConstInt(kv)
-				if !isC {
+				var truth bool
+				switch bo.Op {
+				case token.EQL:
+					truth = x == y
+				case token.NEQ:
+					truth = x != y
+				case token.LSS:
+					truth = x < y
+				case token.LEQ:
+					truth = x <= y
+				case token.GTR:
+					truth = x > y
+				case token.GEQ:
+					truth = x >= y
+				default:
 					return 0, false
 				}
-				truth := (c2 == k) == (bo.Op == token.EQL)
 				if truth == pol {
 					b = b.Succs[0]
 				} else {
@@ -481,6 +558,9 @@ func c10GrpcTable(c *Ctx) {
 	for _, b := range fn.Blocks {
 		if r, ok := b.Instrs[len(b.Instrs)-1].(*ssa.Return); ok && len(r.Results) == 1 {
 			if _, isK := ConstInt(r.Results[0]); !isK {
+				if _, okT := intVal(r.Results[0], 0, 0); okT {
+					continue // an element of a constant package-level table
+				}
 				nonConst = true
 				c.Bad("O10.2", key+":constant-results", r.Pos(), "ConvertGrpcStatus must return table constants")
 			}
